@@ -159,6 +159,24 @@ def sparkScript : Nat → List Bytes → List Nat → List SparkEv
     if r ≤ i then .render :: sparkScript i (s :: ss) rs else .sample s :: sparkScript (i + 1) ss (r :: rs)
 termination_by _ ss rs => ss.length + rs.length
 
+/-! ### the same with the column sorter of `--sort-cols` as a parameter
+
+`colSorter := helpers.BuildSorter(sortCols)` – `less` is that comparator on `(column name, column total)` pairs
+(`Model/C03Cmd.pureSortLess`: `text`, `numeric` – spark's default –, any modifier).  `sparkTrim = sparkTrimBy nvNameLess`. -/
+def sparkTrimBy (less : NV → NV → Bool) (numCols : Nat) (t : Table) : Table :=
+  let cols := (isort less ((akeys t.cols).map fun c => (⟨c, t.colTotal c⟩ : NV))).map (·.name)
+  if cols.length > numCols then
+    let keep := cols.drop (cols.length - numCols)
+    (t.trim (fun c _ _ => !keep.contains c) (akeys t.cols) (fun _ => akeys t.rows)).1
+  else t
+
+def sparkStepBy (less : NV → NV → Bool) (numCols : Nat) (t : Table) : SparkEv → Table
+  | .sample e => t.sample e
+  | .render => sparkTrimBy less numCols t
+
+def sparkRunBy (less : NV → NV → Bool) (numCols : Nat) (delim : Bytes) (evs : List SparkEv) : Table :=
+  evs.foldl (sparkStepBy less numCols) { delim := delim }
+
 /-! ### cmd/helpers/exitCodes.go -/
 
 /-- `DetermineErrorState`: the exit code (0 = `nil`); `aggNil` = the aggregator argument is nil. -/
